@@ -1085,6 +1085,12 @@ func hostileCorpus(thorough bool) []scriptCase {
 		{"recursion", `local function f(n) if n == 0 then return {} end local r = f(n - 1) return r end return f(100000)`, false},
 		{"recursion", `local t = {} t.__index = t setmetatable(t, t) return {t.x}`, false},
 		{"recursion", `local s = "return " .. string.rep("(", 150) .. "1" .. string.rep(")", 150) return {loadstring(s)()}`, false},
+		// shared references stacked in depth: the work of encoding must stay bounded by the number of tables,
+		// not by the number of paths through them (2^depth)
+		{"sharing", `local t = {"x"} for i = 1, 24 do t = {t, t} end return t`, false},
+		{"sharing", `local t = {"x"} for i = 1, 26 do t = {a = t, b = t} end obj.annotations = t return obj`, false},
+		{"sharing", `local t = {"x"} for i = 1, 24 do t = {t, t} end return {json.encode(t)}`, false},
+		{"sharing", `local t = {"x"} for i = 1, 30 do t = {t, t, t} end return {t}`, false},
 		// errors
 		{"error", `error("boom")`, false},
 		{"error", `error({code = 1})`, false},
